@@ -302,6 +302,95 @@ func runC01(c *core.Ctx) {
 				"Engine.mu must stay locked from WAL.CloseSegment to Cache.Snapshot (deferred unlock, no early unlock)")
 		}
 		n += 5
+		// A retried snapshot covers nothing written since the failed attempt: when Cache.Snapshot can hand out
+		// an existing snapshot without moving the live store into it, the critical section must ask the cache
+		// whether that is the case and, where it is, forget the list of closed segments.
+		if inner != nil {
+			snapFn := c.Fn(tsm1 + ".(*Cache).Snapshot")
+			var retained []*core.Event
+			completeS := snapFn.Flow().ExplorePathsMarked(func(k core.VarKey, fct core.Fact) bool { return false }, func(e *core.Event) string {
+				if storeTo(snapFn, "Cache.store")(e) {
+					return "swapped"
+				}
+				return ""
+			}, func(e *core.Event, st core.State) {
+				if e.Kind != core.EvReturn || core.Marked(st, "swapped") {
+					return
+				}
+				if x, _ := snapFn.ResultExpr(e, 0); x != nil && !isNilExpr(snapFn.Info(), x) {
+					for _, r := range retained {
+						if r == e {
+							return
+						}
+					}
+					retained = append(retained, e)
+				}
+			})
+			c.Need(completeS, "exploration bound Cache.Snapshot")
+			c.Counts["retained_snapshot_returns"] = len(retained)
+			if len(retained) > 0 {
+				at := c.P.Pos(retained[0].Pos())
+				isRetained := fieldCallIn(inner, "Engine.Cache", "SnapshotRetained")
+				snapCall := fieldCallIn(inner, "Engine.Cache", "Snapshot")
+				asked := inner.Graph().Find(evCall(isRetained))
+				why := "Cache.Snapshot can return the snapshot of a failed attempt again (@" + at + ") without anything written since; the segments closed since then hold acknowledged writes that are only in the live cache, and removing them after the retried snapshot loses those writes at the next restart"
+				c.Check("retried-snapshot-keeps-wal", inner.Name+"/asks-Cache.SnapshotRetained", inner.PosStr(), len(asked) > 0, why)
+				n++
+				if len(asked) > 0 {
+					orderRule(c, inner, "retried-snapshot-keeps-wal", "Cache.SnapshotRetained", "Cache.Snapshot", evCall(isRetained), evCall(snapCall))
+					// the variable holding the closed segments
+					var segObj types.Object
+					info := inner.Info()
+					ast.Inspect(inner.Body, func(nd ast.Node) bool {
+						as, ok := nd.(*ast.AssignStmt)
+						if !ok || len(as.Rhs) != 1 || len(as.Lhs) < 1 {
+							return true
+						}
+						if ce, ok := as.Rhs[0].(*ast.CallExpr); ok && fieldCallIn(inner, "Engine.WAL", "ClosedSegments")(ce) {
+							if id, ok := as.Lhs[0].(*ast.Ident); ok {
+								segObj = info.ObjectOf(id)
+							}
+						}
+						return true
+					})
+					c.Need(segObj != nil, "variable receiving WAL.ClosedSegments")
+					isRetry := func(x ast.Expr) bool {
+						x = derefLocal(inner, ast.Unparen(x))
+						ce, ok := ast.Unparen(x).(*ast.CallExpr)
+						return ok && isRetained(ce)
+					}
+					bad := ""
+					completeI := inner.Flow().ExplorePathsMarked(func(k core.VarKey, fct core.Fact) bool {
+						if fc, ok := fct.Def.(*ast.CallExpr); ok && snapCall(fc) {
+							return true
+						}
+						return k.Root == nil && strings.HasPrefix(k.Path, "cond:") && fct.Def != nil && isRetry(fct.Def)
+					}, func(e *core.Event) string {
+						if e.Kind == core.EvAssign {
+							if as, ok := e.Node.(*ast.AssignStmt); ok && len(as.Lhs) == 1 && len(as.Rhs) == 1 && isIdentObj(info, as.Lhs[0], segObj) && isNilExpr(info, as.Rhs[0]) {
+								return "dropped"
+							}
+						}
+						return ""
+					}, func(e *core.Event, st core.State) {
+						if e.Kind != core.EvReturn || !core.OutcomeOK(st, snapCall) || bad != "" {
+							return
+						}
+						switch core.CondOutcome(st, isRetry) {
+						case 1:
+							if !core.Marked(st, "dropped") {
+								bad = "the critical section returns @" + c.P.Pos(e.Pos()) + " with the list of closed segments although the cache reported a retained snapshot: " + why
+							}
+						case 0:
+							bad = "the critical section returns @" + c.P.Pos(e.Pos()) + " after Cache.Snapshot succeeded without having tested the answer of Cache.SnapshotRetained: " + why
+						}
+					})
+					c.Need(completeI, "exploration bound "+inner.Name)
+					c.Check("retried-snapshot-keeps-wal", inner.Name+"/segments-dropped-on-retry", inner.PosStr(), bad == "", bad)
+					n++
+				}
+			}
+		}
 		// the write path holds Engine.mu.RLock across cache and WAL write
 		wp := c.Fn(tsm1 + ".(*Engine).WritePointsWithContext")
 		rlock := func(e *core.Event) bool {
